@@ -168,11 +168,15 @@ var xssFrags = []string{
 func runC04(c *run.Ctx) {
 	strict := build(specByName("strict"))
 	ugc := build(specByName("ugc"))
+	strip := build(spec.Spec{Name: "strict", Base: "striptags"}) // judged exactly like StrictPolicy
 
 	hostile := func(in []byte) {
 		s := string(in)
 		c.States++
-		for _, b := range []*built{&strict, &ugc} {
+		for bi, b := range []*built{&strict, &ugc, &strip} {
+			if bi == 2 && len(s) > 24 {
+				continue // the deprecated alias: short inputs only
+			}
 			c.Trace(func() string { return b.S.Name + "\n" + run.Q(s) })
 			out, pm := San(b.P, s)
 			c.Eval()
